@@ -348,6 +348,11 @@ func ParseTimestamp(dateStr string) (Timestamp, error) {
 			}
 		}
 
+		if idx >= len(dateStr) {
+			// The string ends after the seconds (or their fraction): the offset is missing.
+			return invalidTimestamp(dateStr)
+		}
+
 		kind, err := computeTimezoneKind(dateStr, idx)
 		if err != nil {
 			return Timestamp{}, err
